@@ -14,6 +14,7 @@ LEVEL_TEXT = (
     'enumerated for a fixed configuration pair; oracle after success: every remaining peer table == new configuration routes + live API '
     'routes, removed neighbors closed with a cease; after failure: neighbors, parameters, Adj-RIB-Out and sessions unchanged, no UPDATE '
     'emitted, and a later API announce is acknowledged and reaches the peers.'
+    ' Edits include an address family or a second helper process appearing/disappearing and neighbor blocks in any order; neighbors may be passive or without adj-rib-in; the API may announce a prefix the new file dropped right after the reload; files refused only by the late validation; helper processes judged too.'
 )
 LEVEL_NOTE = 'trusts: simulated file system faults (exasim.world.SimFS), reference decoder, the result of Configuration.reload() observed by a pass-through wrapper'
 DESIGN_REF = 'DESIGN.md section 5, C17'
